@@ -17,6 +17,7 @@ var basicTypes = []reflect.Type{
 	reflect.TypeFor[uint](), reflect.TypeFor[uint8](), reflect.TypeFor[uint16](), reflect.TypeFor[uint32](), reflect.TypeFor[uint64](), reflect.TypeFor[uintptr](),
 	reflect.TypeFor[float32](), reflect.TypeFor[float64](), reflect.TypeFor[string](), reflect.TypeFor[any](),
 	reflect.TypeFor[typecorpus.NamedInt](), reflect.TypeFor[typecorpus.NamedStr](), reflect.TypeFor[typecorpus.Key](),
+	reflect.TypeFor[struct{}](), reflect.TypeFor[typecorpus.Empty](),
 }
 
 // TypeSig is a structural signature of a type (names erased) used for non-triviality keys.
@@ -107,6 +108,9 @@ var tagForms = []string{"%s", "%s", "%s,omitempty", "%s,omitzero", "%s,omitempty
 
 func randStruct(r *rand.Rand, o TypeOpts, depth int) (result reflect.Type) {
 	n := 1 + r.IntN(5)
+	if r.IntN(12) == 0 {
+		n = 0 // a struct without fields
+	}
 	var fields []reflect.StructField
 	usedDash := false
 	// an embedded corpus struct (by value or pointer) first, sometimes
@@ -134,6 +138,12 @@ func randStruct(r *rand.Rand, o TypeOpts, depth int) (result reflect.Type) {
 				usedDash = true
 			}
 			tag = reflect.StructTag(fmt.Sprintf(`json:"%s"`, form))
+		}
+		if r.IntN(7) == 0 { // a description tag
+			if tag != "" {
+				tag += " "
+			}
+			tag += reflect.StructTag(`jsonschema:"described field ` + fmt.Sprint(i) + `"`)
 		}
 		fields = append(fields, reflect.StructField{Name: name, Type: ft, Tag: tag})
 	}
